@@ -5,3 +5,4 @@ import TV.Properties.C16
 #print axioms TV.C16.C16_in_progress
 #print axioms TV.C16.C16_dequeue_removes_exactly
 #print axioms TV.C16.C16_setprio_waiting
+#print axioms TV.C16.C16_model_passes_monitor
